@@ -1,5 +1,11 @@
 package vegeta
 
+import (
+	"bufio"
+	"io"
+	"strings"
+)
+
 // C15 (1) — the static targeter from an arbitrary counter state: draw number
 // i+1 returns tgts[(i+1) mod k] and advances the counter by exactly one, so
 // draws rotate strictly and after n draws every target was used floor(n/k) or
@@ -42,4 +48,121 @@ func verif_harness_C15_static_rotation() {
 		}
 	}
 	verif_assert(tr(nil) == ErrNilTarget, "C15.static.nil-target-rejected")
+}
+
+// C15 (2) — T goroutines draw from one static targeter concurrently: over
+// every interleaving each of the k targets is used floor(T/k) or ceil(T/k)
+// times, and no two accesses to the counter can race.
+//
+//verif:harness engine=gobmc param.T=2..3 unwind=16 replay=none autoshared=1 queries=cut,bad,race,deadlock bmctimeout=600
+func verif_harness_C15_static_concurrent() {
+	T := verif_param("T")
+	tr := NewStaticTargeter(Target{Method: "GET", URL: "u0"}, Target{Method: "GET", URL: "u1"})
+	done := make(chan struct{})
+	verif_chan_name(done, "done")
+	for w := 0; w < T; w++ {
+		go func() {
+			var t Target
+			verif_assert(tr(&t) == nil, "C15.static.no-error")
+			if t.URL == "u0" {
+				verif_ghost_add("used0", 1)
+			} else {
+				verif_ghost_add("used1", 1)
+			}
+			done <- struct{}{}
+		}()
+	}
+	for w := 0; w < T; w++ {
+		<-done
+	}
+	u0, u1 := verif_ghost_add("used0", 0), verif_ghost_add("used1", 0)
+	verif_assert(u0+u1 == int64(T) && u0-u1 <= 1 && u1-u0 <= 1, "C15.static.even-rotation-under-concurrency")
+}
+
+// C15 (3) — T goroutines draw from one JSON stream targeter concurrently. The
+// buffered reader inside the targeter is replaced by a cursor model: ReadBytes
+// loads a shared position, hands out that line and stores position+1 — plain
+// accesses to a declared shared variable, so the mutex of the targeter is what
+// has to order them. Over every interleaving: each line is handed to exactly
+// one caller, later callers get ErrNoTargets, no data race, no deadlock.
+//
+//verif:harness engine=gobmc param.T=2..3 unwind=32 replay=none queries=cut,bad,race,deadlock bmctimeout=900 maxevents=80
+func verif_harness_C15_json_targeter_concurrent() {
+	T := verif_param("T")
+	lines := []string{`{"method":"GET","url":"http://a/"}` + "\n", `{"method":"GET","url":"http://b/"}` + "\n"}
+	pos := 0
+	verif_shared(&pos, "reader_position")
+	verif_stub("(*bufio.Reader).ReadBytes", func(r *bufio.Reader, delim byte) ([]byte, error) {
+		p := pos
+		if p < 0 || p >= len(lines) {
+			return nil, io.EOF
+		}
+		pos = p + 1
+		return []byte(lines[p]), nil
+	})
+	tr := NewJSONTargeter(strings.NewReader(""), nil, nil)
+	done := make(chan struct{})
+	verif_chan_name(done, "done")
+	for w := 0; w < T; w++ {
+		go func() {
+			var t Target
+			err := tr(&t)
+			switch {
+			case err == ErrNoTargets:
+				verif_ghost_add("exhausted", 1)
+			case err != nil:
+				verif_assert(false, "C15.json.unexpected-error")
+			case t.URL == "http://a/":
+				verif_ghost_add("got_a", 1)
+			case t.URL == "http://b/":
+				verif_ghost_add("got_b", 1)
+			default:
+				verif_assert(false, "C15.json.target-mixed-with-another")
+			}
+			done <- struct{}{}
+		}()
+	}
+	for w := 0; w < T; w++ {
+		<-done
+	}
+	verif_assert(verif_ghost_add("got_a", 0) == 1 && verif_ghost_add("got_b", 0) == 1, "C15.json.each-target-exactly-once")
+	verif_assert(verif_ghost_add("exhausted", 0) == int64(T-2), "C15.json.exhaustion-reported-to-later-callers")
+}
+
+// C15 (3) — two goroutines draw from one http-format targeter concurrently,
+// the line scanner replaced by the same kind of cursor model. The look-ahead
+// buffer inside the targeter is shared memory of string type, found by the
+// automatic detection; its value is not tracked, so only the race and bound
+// queries are asked: every access to the cursor and to the look-ahead buffer is
+// ordered by the targeter's mutex.
+//
+//verif:harness engine=gobmc unwind=32 replay=none autoshared=1 queries=cut,race bmctimeout=900 maxevents=120
+func verif_harness_C15_http_targeter_race() {
+	lines := []string{"GET http://a/", "K: v"}
+	pos := 0
+	verif_shared(&pos, "scanner_position")
+	cur := ""
+	verif_stub("(*bufio.Scanner).Scan", func(sc *bufio.Scanner) bool {
+		p := pos
+		if p < 0 || p >= len(lines) {
+			return false
+		}
+		pos = p + 1
+		cur = lines[p]
+		return true
+	})
+	verif_stub("(*bufio.Scanner).Text", func(sc *bufio.Scanner) string { return cur })
+	verif_stub("(*bufio.Scanner).Err", func(sc *bufio.Scanner) error { return nil })
+	tr := NewHTTPTargeter(strings.NewReader(""), nil, nil)
+	done := make(chan struct{})
+	verif_chan_name(done, "done")
+	for w := 0; w < 2; w++ {
+		go func() {
+			var t Target
+			_ = tr(&t)
+			done <- struct{}{}
+		}()
+	}
+	<-done
+	<-done
 }
